@@ -181,15 +181,17 @@ class Selector:
             for c, p, src, kinds in env['$yield']:
                 results.append((c, p, src, kinds))
 
-        def walk(stmts: List[ast.stmt], cond, env: Dict[str, List[Alt]]):
+        def walk(stmts: List[ast.stmt], cond, env: Dict[str, List[Alt]], subst=subst):
+            # `subst` also carries the plain locals bound on this path (variables = self.variables() / {target} ...), so that a
+            # name bound differently on two branches is resolved per branch
             for i, st in enumerate(stmts):
                 if isinstance(st, ast.If):
                     f = self.formula(fi, st.test, st.test, subst)
                     rest = stmts[i + 1:]
                     if f is not False:
-                        walk(st.body + rest, bn.mk_and([cond, f]), dict(env))
+                        walk(st.body + rest, bn.mk_and([cond, f]), dict(env), dict(subst))
                     if f is not True:
-                        walk(st.orelse + rest, bn.mk_and([cond, bn.mk_not(f)]), dict(env))
+                        walk(st.orelse + rest, bn.mk_and([cond, bn.mk_not(f)]), dict(env), dict(subst))
                     return
                 if isinstance(st, ast.Return):
                     if st.value is None:
@@ -212,6 +214,10 @@ class Selector:
                         env.pop(tgt.id, None)
                         if new is not None:
                             env[tgt.id] = new
+                        elif val is not None and not any(isinstance(x, (ast.Yield, ast.Await, ast.NamedExpr, ast.Lambda)) for x in ast.walk(val)):
+                            # a plain local: substitute it (with what is known on this path) wherever it is read later on this path
+                            subst = dict(subst)
+                            subst[tgt.id] = bn.Abstractor(subst).rewrite(val)
                     continue
                 if isinstance(st, ast.For):
                     self._loop(fi, st, subst, env)
